@@ -631,6 +631,22 @@ static Family search_family(const std::string &tier)
     c.auto_io     = true;
     f.cfgs.push_back(c);
   }
+  {
+    // the application's search list (also an EMPTY one passed with ARES_OPT_DOMAINS) and ndots win over what the system
+    // configuration file says
+    Cfg c        = cfg("ndots1-doms-none-by-option-system-file-has-a-search-list", 1, 1, 0);
+    c.domains    = {};
+    c.ndots      = 1;
+    c.sys_resolv = "search sys1.test sys2.test\noptions ndots:3\n";
+    c.auto_io    = true;
+    f.cfgs.push_back(c);
+    Cfg d        = cfg("ndots1-doms1-by-option-system-file-has-a-search-list", 1, 1, 0);
+    d.domains    = { "d1.test" };
+    d.ndots      = 1;
+    d.sys_resolv = "search sys1.test sys2.test\noptions ndots:3\n";
+    d.auto_io    = true;
+    f.cfgs.push_back(d);
+  }
   const char *names[] = { "host", "a.b", "a.b.c", "a.b.c.d", "host.", "a.b.", "a\\.b" };
   for (const char *n : names) {
     f.reqs.push_back(rq(4, n));                          // search_dnsrec
@@ -783,6 +799,15 @@ static Family cookie_family(const std::string &tier)
     c.auto_io  = true;
     c.preamble = { { EV_REQ, 0, 0 }, { EV_REPLY, 0, RK_BADCOOKIE }, { EV_REPLY, 1, RK_BADCOOKIE } };
     if (tier != "quick") c.depth_cut = 1; // three events deep already
+    f.cfgs.push_back(c);
+  }
+  {
+    // truncation ignored (IGNTC): the switch to TCP after three BADCOOKIE re-sends has nothing to do with truncation and
+    // must still happen
+    Cfg c      = cfg("1srv-edns-igntc-from-two-badcookie-resends", 1, 3, ARES_FLAG_EDNS | ARES_FLAG_IGNTC);
+    c.auto_io  = true;
+    c.preamble = { { EV_REQ, 0, 0 }, { EV_REPLY, 0, RK_BADCOOKIE }, { EV_REPLY, 1, RK_BADCOOKIE } };
+    c.depth_cut = 1;
     f.cfgs.push_back(c);
   }
   f.reqs.push_back(rq(2, "a.example.com"));
